@@ -73,6 +73,8 @@ def load(mir_path, src_root):
         pm = re.match(r'(.*?(?:promoted\[\d+\]|\{constant#\d+\})): (.*)$', m.group(1), re.S)
         name, ty = (pm.group(1), pm.group(2)) if pm else m.group(1).rsplit(': ', 1)
         f = Fn(name, '() -> ' + ty, m.group(2)); consts[name] = f
+    for m in re.finditer(r'^const ([^\n=]*?): ([^\n=]*?) = (const [^\n]*);$', txt, re.M):      # constants whose initialiser is a literal are printed on one line
+        f = Fn(m.group(1).strip(), '() -> ' + m.group(2).strip(), '    bb0: {\n        _0 = %s;\n        return;\n    }\n' % m.group(3)); consts[m.group(1).strip()] = f
     allocs = {}
     for m in re.finditer(r'^(alloc\d+) \(static: \w+, size: \d+, align: \d+\) \{\n\s*╾─*(alloc\d+)<imm>─*╼ ((?:[0-9a-f]{2} ){8})', txt, re.M):
         allocs[m.group(1)] = ('strptr', m.group(2), int.from_bytes(bytes(int(x, 16) for x in m.group(3).split()), 'little'))
@@ -459,10 +461,16 @@ class Exec:
         if m: return err(adt(m.group(1), None))
         m = re.match(r'Result::<.*>::Err\((\w+)\)$', s)
         if m: return err(adt(m.group(1), None))
+        m = re.match(r'(?:[\w:<>]+::)?([A-Z][A-Z0-9_]+)$', s)
+        if m:      # a constant of the crate (module level or associated), possibly named without a path: evaluate its own MIR body
+            ks = [k for k in self.consts if k.endswith('>::' + m.group(1)) or k.endswith('::' + m.group(1)) or k == m.group(1)]
+            if len(ks) == 1: return self.eval_const_fn(st, self.consts[ks[0]])
         m = re.match(r'(?:\w+::)*([A-Z]\w*)\(\(\)\)$', s)
         if m: return adt(m.group(1), None)
         m = re.match(r'([A-Z]\w*)(::<.*>)?$', s)
-        if m: return adt(m.group(1), None)
+        if m:
+            if re.match(r'[A-Z][A-Z0-9_]+$', m.group(1)) and len(m.group(1)) > 1 and '_' in m.group(1): raise Unsupported('constant %s has no MIR body in the dump' % s)
+            return adt(m.group(1), None)
         m = re.match(r'[\w:<>]+::([A-Z][A-Z0-9_]+)$', s)
         if m:      # associated / module constant of the crate: evaluate its own MIR body
             ks = [k for k in self.consts if k.endswith('>::' + m.group(1)) or k.endswith('::' + m.group(1)) or k == m.group(1)]
@@ -492,13 +500,36 @@ class Exec:
         if re.match(r'[a-z_][\w:]*$', s) and any(f.method == s.split('::')[-1] and not f.impl for f in self.fns): return ('fnitem', s.split('::')[-1])
         raise Unsupported('operand: ' + s)
 
+    INT_RANGE = {'u8': (0, 2**8), 'u16': (0, 2**16), 'u32': (0, 2**32), 'u64': (0, 2**64), 'usize': (0, 2**64), 'u128': (0, 2**128),
+                 'i8': (-2**7, 2**7), 'i16': (-2**15, 2**15), 'i32': (-2**31, 2**31), 'i64': (-2**63, 2**63), 'isize': (-2**63, 2**63), 'i128': (-2**127, 2**127),
+                 'bool': (0, 2), 'char': (0, 0x110000)}
+
+    def int_cast(self, fr, src_operand, v, target):
+        """`x as T` between integer types: the value when T can hold every value of the source type, otherwise the two's-complement wrap (integers are mathematical
+        in this encoding, so the wrap is explicit); an unknown source type is treated as the widest"""
+        if target not in self.INT_RANGE: raise Unsupported('integer cast to ' + target)
+        lo, hi = self.INT_RANGE[target]
+        mm = re.match(r'(?:copy|move) (_\d+)$', src_operand.strip()); sty = fr['fn'].ltypes.get(mm.group(1)) if mm else None
+        cm_ = re.match(r'const (-?\d+)_(\w+)$', src_operand.strip())
+        if cm_: sty = cm_.group(2)
+        if is_bool(v): v = If(v, IntVal(1), IntVal(0))
+        if not (is_expr(v) and is_int(v)): raise Unsupported('integer cast of a non-integer value: ' + str(v)[:60])
+        if sty in self.INT_RANGE:
+            slo, shi = self.INT_RANGE[sty]
+            if lo <= slo and shi <= hi: return v
+        if is_int_value(v):
+            x = v.as_long(); return IntVal((x - lo) % (hi - lo) + lo)
+        self.stats['bounds']['narrowing integer casts'] = 'modelled as two\'s-complement wrap'
+        return (v - lo) % (hi - lo) + lo
+
     def rvalue(self, st, fr, s, dest_ty=None):
         s = s.strip()
         if s.startswith(('copy ', 'move ', 'const ', 'no_retag ')):
             m = re.match(r'(.*) as (.*) \((\w+)(?:\(.*\))?\)$', s)
             if m:
                 v = self.operand(st, fr, m.group(1)); kind = m.group(3)
-                if kind in ('IntToInt', 'PointerCoercion', 'Transmute', 'PtrToPtr'): return v   # ints are mathematical here; unsizing keeps the value
+                if kind == 'IntToInt': return self.int_cast(fr, m.group(1), v, m.group(2).strip())
+                if kind in ('PointerCoercion', 'Transmute', 'PtrToPtr'): return v   # unsizing / pointer casts keep the value
                 raise Unsupported('cast kind ' + kind)
             return self.operand(st, fr, s)
         if s.startswith('&'):
@@ -659,7 +690,7 @@ class Exec:
         for depth in range(len(st.stack) - 1, -1, -1):
             f = st.stack[depth]['fn']
             sig = getattr(f, 'sig', '') or ''
-            if ' -> ' not in sig or '&mut ' in sig or '{closure' in f.name or '::{' in f.name.split('::')[-1]: continue
+            if ' -> ' not in sig or '{closure' in f.name or '::{' in f.name.split('::')[-1]: continue
             rty = sig.rsplit(' -> ', 1)[1].strip()
             for gname, gty in st.stack[depth].get('subst', {}).items():
                 if not gname.startswith('impl '): rty = re.sub(r'(?<![\w:])%s(?![\w])' % re.escape(gname), lambda m_: gty, rty)
@@ -667,9 +698,17 @@ class Exec:
             vals = self.havoc_type(st, rty, tag)
             if vals is None: continue
             self.stats.setdefault('abstracted', []).append('%s abstracted to "any %s, or a panic" because: %s' % (f.name[-80:], rty, msg[:300]))
+            # whatever the function could reach through a `&mut` parameter is unknown afterwards: the pointee becomes a marker no later comparison equals
+            muts = [p_ for p_ in f.params if f.ltypes.get(p_, '').lstrip().startswith('&mut ')]
+            if muts and vals and any(isinstance(v_, tuple) and v_[0] == 'ref' for v_ in vals): continue
             outs = []
             for v in vals + [Panic('abstracted function %s may panic' % (f.method or f.name[-30:]))]:
                 s2 = st.fork(); del s2.stack[depth + 1:]
+                for p_ in muts:
+                    r_ = s2.store.get(s2.stack[depth]['locals'].get(p_))
+                    if isinstance(r_, tuple) and r_[0] == 'ref':
+                        n_ = self.stats['havoc_n'] = self.stats.get('havoc_n', 0) + 1
+                        s2.store[r_[1]] = set_path(s2.store[r_[1]], r_[2], adt('Havocked', None, Int('havocked_state%d' % n_)))
                 outs += self.ret(s2, v)
             return outs
         return None
